@@ -157,6 +157,17 @@ func rewrite(path string) ([]byte, int, error) {
 	}
 	ast.Inspect(f, func(n ast.Node) bool {
 		switch x := n.(type) {
+		case *ast.GoStmt:
+			// A goroutine that the pipeline starts itself: the go statement is announced
+			// ("G"), the new goroutine reports in with its first statement ("g") and out with
+			// its last ("x", deferred first, so it runs after the function's own defers), so
+			// that the simulator can schedule it like a task. Only the literal form; a
+			// goroutine started as `go f(x)` runs freely.
+			if fl, ok := x.Call.Fun.(*ast.FuncLit); ok && fl.Body != nil {
+				add(off(x.Pos()), `vhkYield.Yield("G", nil); `)
+				add(off(fl.Body.Lbrace)+1, ` vhkYield.Yield("g", nil); defer vhkYield.Yield("x", nil); `)
+				points += 3
+			}
 		case *ast.FuncDecl:
 			block(x.Body)
 		case *ast.FuncLit:
